@@ -140,7 +140,7 @@ func (ex *Exec) call(f *Frame, st *State, x *ssa.Call, b *ssa.BasicBlock, i int,
 		if con != nil && con.Inline {
 			wantInline = true
 			inlSweep = con.Sweep
-		} else if con == nil && ex.inModule(callee) && len(ex.prog.loopInfo(callee).headers) == 0 && instrCount(callee) <= 60 && f.depth < 3 {
+		} else if con == nil && !ex.prog.CS.isPure(name) && ex.inModule(callee) && len(ex.prog.loopInfo(callee).headers) == 0 && instrCount(callee) <= 60 && f.depth < 3 {
 			wantInline = true
 		}
 	}
